@@ -504,6 +504,102 @@ def run_bridge(ck, pid):
     ck.extra.setdefault("input_distribution", {})["bridge"] = {"services": 6, "bridge_ok": val("BOK"), "columns_ok": val("COK"), "details_ok": val("DOK")}
 
 
+def cell_case_coq(c):
+    def ocells(col):
+        return coq_list(["((%d)%%Z, (%d)%%Z)" % (x[0], x[1]) for x in (col or [])])
+    obs = []
+    for it in (c.get("items") or []):
+        if it.get("err"):
+            obs.append("None")
+        else:
+            subs = ["(%s, %s)" % (KIND[sr["kind"]], coq_list([ocells(col) for col in sr["cols"]])) for sr in (it.get("chunk") or [])]
+            obs.append("Some %s" % coq_list(subs))
+    end = {"": "PendNil", "err": "PendErr false", "panic": "PendPanic"}[c.get("end") or ""]
+    if c["kind"] == "spans":
+        evs = coq_list(["{| se_tid := %d%%N; se_sid := %d%%N; se_keys := %d; se_vals := %d; se_bytes := %d%%N |}" % (x["tid"], x["sid"], x["keys"], x["vals"], x["bytes"])
+                        for x in (c.get("spans") or [])])
+        return "{| k_id := (%d)%%Z; k_spans := Some %s; k_logs := []; k_end := %s; k_obs := %s |}" % (c["id"], evs, end, coq_list(obs))
+    evs = coq_list(["{| en_lbl_short := %s; en_ts := %d; en_msg := %d; en_val := %d; en_types := %d; en_bad_type := %s; en_series := %d; en_bytes := %d%%N |}"
+                    % (b(x.get("lbl_short")), x["ts"], x["msg"], x["val"], x["types"], b(x.get("bad_type")), x["series"], x["bytes"]) for x in (c.get("logs") or [])])
+    return "{| k_id := (%d)%%Z; k_spans := None; k_logs := %s; k_end := %s; k_obs := %s |}" % (c["id"], evs, end, coq_list(obs))
+
+
+def run_cells(ck, pid):
+    """level 4: the real parserDoer + onSpan / onEntries behind a scripted decoder whose values carry the identity of the call: the requests sent are compared
+    cell by cell with the cell-level interpreter of model/IngestBridge.v (span_items / logs_items); oracle on the observed requests: tables of whole rows"""
+    n = ck.n(160, 3000)
+    outp = os.path.join(ck.work, "cells.jsonl")
+    if not ck.go_build("ingest"):
+        ck.obligation("harness ingest builds against the repository", False, getattr(ck, "build_out", "")[-1500:])
+        return
+    rc, out = ck.go_run("ingest", ["--level", "4", "--seed", ck.seed + 77, "--n", n, "--out", outp], timeout=600)
+    if rc != 0:
+        ck.obligation("harness ingest (parser cells) ran", False, out[-1500:])
+        return
+    cases = [json.loads(l) for l in open(outp) if l.strip()]
+    broken = [c for c in cases if c.get("err")]
+    good = [c for c in cases if not c.get("err")]
+    okm, o = ck.coq_make(["model/IngestCellCases.vo"])
+    if not okm:
+        ck.obligation("model/IngestCellCases.v compiles", False, o[-1500:])
+        return
+    mism, viol = [], []
+    for k in range(0, len(good), 400):
+        txt = ("From Coq Require Import List String ZArith NArith Bool.\nFrom Qryn Require Import model.IngestRobust model.IngestPipe.\n"
+               "From Qryn Require Import model.Ingest model.PushHandler model.IngestSpec model.IngestBridge model.IngestCellCases.\nImport ListNotations.\n"
+               "Definition cases : list cellcase := [\n  " + ";\n  ".join(cell_case_coq(c) for c in good[k:k + 400]) + "].\n"
+               "Definition M := Eval vm_compute in cell_mismatches cases.\nPrint M.\nDefinition V := Eval vm_compute in cell_violations cases.\nPrint V.\n")
+        rc, out = ck.coq_eval("%s_cells_%d" % (pid, k), txt)
+        flat = " ".join(out.split())
+        m, v = parse_ids(flat, "M"), parse_ids(flat, "V")
+        if rc != 0 or m is None or v is None:
+            ck.obligation("parser-cell cases evaluated inside Coq", False, out[-1500:])
+            return
+        mism += m
+        viol += v
+    byid = {c["id"]: c for c in cases}
+    ck.obligation("harness executed every parser-cell script", not broken, "%d; first: %s" % (len(broken), broken[0]["err"] if broken else ""))
+    ck.obligation("correspondence: the requests the real onSpan / onEntries sent = the cell-level interpreter over the append programs, cell by cell "
+                  "(which call and which position every element of every slice field came from), chunk by chunk, on %d decoder scripts" % len(good), not mism,
+                  "mismatching case ids: %s" % mism[:10])
+    ck.obligation("every request the real batching handlers sent is a table of whole rows (all columns one length; at every position the columns agree on the call and the "
+                  "position wherever they can tell), the scripted decoder keeping the equal-length contract", not viol, "violating case ids: %s" % viol[:10])
+    if viol:
+        worst = min((byid[i] for i in viol), key=lambda c: len(json.dumps(c)))
+        ck.violation({"property": pid, "kind": "a request sent by the real batching handlers is not a table of whole submitted rows",
+                      "explanation": "model/IngestCellCases.v osub_table rejects a sub-request observed behind the real onSpan / onEntries: its columns differ in length, or at some position "
+                                     "two columns hold values of different decoder calls / of different positions of one call (a row whose fields come from different submitted rows)",
+                      "case": worst, "replay": "harness ingest --level 4 --cases <file with the case object on one line>"})
+    elif mism or broken:
+        bad = [byid[i] for i in mism] or broken
+        worst = min(bad, key=lambda c: len(json.dumps(c)))
+        ck.violation({"property": pid, "kind": "model/implementation disagree on what the parser sends for a decoder script; the observed requests are still tables",
+                      "case": worst, "broken": "correspondence IngestBridge.span_items / logs_items vs writer/utils/unmarshal/builder.go onSpan / onEntries"}, no_input=True)
+    dist = {"span_scripts": 0, "log_scripts": 0, "ended_by_error_response": 0, "with_flush_chunks": 0, "log_scripts_breaking_the_contract": 0, "cells_compared": 0}
+    distinct = set()
+    for c in good:
+        dist["span_scripts" if c["kind"] == "spans" else "log_scripts"] += 1
+        items = c.get("items") or []
+        if any(it.get("err") for it in items):
+            dist["ended_by_error_response"] += 1
+        if sum(1 for it in items if not it.get("err")) > 1:
+            dist["with_flush_chunks"] += 1
+        if c["kind"] == "logs" and any(not (x["msg"] == x["ts"] == x["val"] == x["types"]) for x in c.get("logs") or []):
+            dist["log_scripts_breaking_the_contract"] += 1
+        ncell = sum(len(col or []) for it in items for sr in (it.get("chunk") or []) for col in sr["cols"])
+        dist["cells_compared"] += ncell
+        if ncell > 0:
+            distinct.add(json.dumps([c.get("spans"), c.get("logs"), c.get("end")], sort_keys=True))
+    ck.coverage["evaluations"] += len(cases)
+    ck.coverage["distinct_nontrivial"] += len(distinct)
+    ck.coverage["rule"] += ("Parser-cell scripts: 1..7 onSpan calls (1 in 20 with a wrong id width, 1 in 20 with fewer / more values than keys) or 1..6 onEntries calls of 0..4 entries (about 1 in 5 breaking "
+                            "the equal-length contract, a short label pair or a bad sample type), one script in four with payloads / lines that cross the 1 MiB flush threshold, one in five ended by a "
+                            "decoder error or panic; non-trivial = at least one cell was sent; distinct by content. ")
+    ck.extra.setdefault("input_distribution", {})["parser_cells"] = dist
+    ck.add_samples([{"kind": c["kind"], "calls": (c.get("spans") or c.get("logs"))[:3], "end": c.get("end"),
+                     "items": [("error" if it.get("err") else [(sr["kind"], [len(col or []) for col in sr["cols"]]) for sr in it["chunk"]]) for it in (c.get("items") or [])][:3]} for c in good[:2]], limit=6)
+
+
 # ---------------------------------------------------------------------------------------------- level 2 (HTTP handlers)
 L2KINDS = ["series", "samples", "tags", "spans", "profile"]
 # errTexts of harness/cmd/ingest/main.go (field "e" of a failing ret)
@@ -747,12 +843,35 @@ def coverage_level2(ck, res):
                     status[str(e.get("status"))] = status.get(str(e.get("status")), 0) + 1
         if nontrivial2(c):
             distinct.add(json.dumps([c["reqs"], c["ops"], c.get("attempts")], sort_keys=True))
+    # class repeat: the same series pushed again; how often a parser left series rows out (first Request call of a series
+    # sub-request carries fewer rows than the body gives rise to on an empty cache)
+    rep = {"scripts": 0, "pushes": 0, "pushes_with_series_rows_left_out": 0, "pushes_answered_error": 0}
+    for c in cases:
+        if not c.get("repeat"):
+            continue
+        sub = " ".join(str(c.get("class", "?")).split()[:2])
+        rep[sub] = rep.get(sub, 0) + 1
+        rep["scripts"] += 1
+        first = {}
+        for l in (c.get("obs") or []):
+            for e in (l or []):
+                if e["t"] == "sreq" and e.get("s") == 0 and e.get("k", 0) == 0 and e.get("h", 0) >= 0:
+                    first.setdefault(e.get("h", 0), e.get("n", 0))
+                if e["t"] == "answer" and not e.get("ok"):
+                    rep["pushes_answered_error"] += 1
+        for h, r in enumerate(c.get("reqs") or []):
+            full = sum(len(sr.get("rids") or []) for it in (r.get("items") or []) for sr in (it.get("chunk") or []) if sr.get("kind") == "series")
+            rep["pushes"] += 1
+            if full > first.get(h, 0):
+                rep["pushes_with_series_rows_left_out"] += 1
+    ck.extra.setdefault("input_distribution", {})["http_repeated_series"] = rep
     ck.coverage["evaluations"] += len(cases)
     ck.coverage["distinct_nontrivial"] += len(distinct)
     ck.coverage["rule"] += ("HTTP scripts: the real PushStreamV2 (Loki JSON and snappy protobuf), PushV2 (Zipkin JSON), WriteStreamV2 (Prometheus remote write), OTLPPushV2 and PushProfileV2 (pprof, binary/octet-stream) handlers over five real services, RetryAttempts 0..3, "
                             "1..4 pushes (one in ten with a body the parser rejects), 6..19 operations (push, PlanFlush, let a worker call Do, return of Do with success 2/5) then a drain; "
                             "a failing INSERT returns one of 12 real socket / ClickHouse error texts; two scripted classes by case number: exhaust (2 in 10: every INSERT fails until every push is answered, "
-                            "every second one with a connection-reset text) and bigspans (1 in 10: a Zipkin push above the parser's 1 MiB chunk threshold, 3-4 chunks, first INSERT fails); "
+                            "every second one with a connection-reset text) and bigspans (1 in 10: a Zipkin push above the parser's 1 MiB chunk threshold, 3-4 chunks, first INSERT fails), repeat (1 in 10: the same Loki series pushed 2-3 times over a real per-script "
+                            "announcement cache -- after the previous push was confirmed / while it is in flight / after its series INSERT failed for good); "
                             "every Request call of doPush and the completion of its promise are observed through a wrapper around the services and compared with the model; "
                             "non-trivial = RetryAttempts >= 1, at least one failed INSERT and one answer; distinct by content. ")
     ck.extra.setdefault("input_distribution", {}).update({"http_retry_attempts": att, "http_routes": routes, "http_operation_kinds": opk,
